@@ -1,4 +1,5 @@
 import Verif.Model.Front.Lexer
+import Verif.Spec.LineCol
 /-!
 What the property says about a token list (the token record is the model's, the predicates are independent
 of how the list was produced).  Error tokens (`TokenError`) mark a position and consume nothing; all other
@@ -27,5 +28,38 @@ def Contiguous (toks : List Token) : Prop := ContigRev toks.reverse
     (an empty token has `end = start - 1`), error tokens `0 ≤ start = end < len` -/
 def InRange (len : Nat) (t : Token) : Prop :=
   0 ≤ t.startOff ∧ t.endOff < len ∧ (if isError t then t.startOff = t.endOff else t.startOff ≤ t.endOff + 1)
+
+/-! ### positions -/
+
+/-- the (line, column) of a byte offset, from scratch (`Spec.LineCol`) -/
+def posOf (inp : Verif.Model.Front.Bytes) (off : Int) : Pos :=
+  ⟨(Verif.Spec.LineCol.lineCol inp off.toNat).1, (Verif.Spec.LineCol.lineCol inp off.toNat).2⟩
+
+/-- both reported positions of the token are the positions of its offsets -/
+def Exact (inp : Verif.Model.Front.Bytes) (t : Token) : Prop :=
+  t.startPos = posOf inp t.startOff ∧ t.endPos = posOf inp t.endOff
+
+/-- the token's last byte is ASCII (its last rune is one byte wide) -/
+def endsAscii (inp : Verif.Model.Front.Bytes) (t : Token) : Prop :=
+  0 ≤ t.endOff ∧ Verif.Model.Front.byteAt inp t.endOff.toNat < 0x80
+
+/-- a token that is not empty and ends in an ASCII byte -/
+def good (inp : Verif.Model.Front.Bytes) (t : Token) : Prop := t.startOff ≤ t.endOff ∧ endsAscii inp t
+
+instance (inp : Verif.Model.Front.Bytes) (t : Token) : Decidable (good inp t) := by
+  unfold good endsAscii; infer_instance
+instance (inp : Verif.Model.Front.Bytes) (t : Token) : Decidable (Exact inp t) := by
+  unfold Exact; infer_instance
+
+/-- every token of the list is `good` (error tokens too: they cover the one byte at which lexing stopped) -/
+def AllGood (inp : Verif.Model.Front.Bytes) (ts : List Token) : Prop := ∀ t ∈ ts, good inp t
+instance (inp : Verif.Model.Front.Bytes) (ts : List Token) : Decidable (AllGood inp ts) := by
+  unfold AllGood; infer_instance
+
+/-- newest-first list: every good consuming token all of whose predecessors (older tokens) are good has
+    exact positions -/
+def ExactRev (inp : Verif.Model.Front.Bytes) : List Token → Prop
+  | [] => True
+  | t :: ts => (AllGood inp ts → isError t = false → good inp t → Exact inp t) ∧ ExactRev inp ts
 
 end Verif.Spec.Tokens
